@@ -37,8 +37,17 @@ def one_case(rng):
     else:
         order = list(names)
         table = build_sysv(order, rng.choice([1, 3]), le)
+    # an image that exports nothing: the link editor writes a GNU hash table that hashes no symbol (one empty bucket, first
+    # hashed index 1) NEXT TO a SysV table; the count is then the SysV table's nchain, the GNU table only bounds it from below
+    both_empty_gnu = rng.random() < 0.15
+    gnu_extra = None
+    if both_empty_gnu:
+        use_gnu = False
+        order = list(names)
+        table = build_sysv(order, rng.choice([1, 3]), le)
+        gnu_extra, _o = build_gnu(order[:1], 1, 1, 1, rng.choice([5, 6]), cls, le)
     symtab = b''.join(W.sym_entry(cls, le, stroff.get(n, 0) if n else 0, 0x1000 + 16 * i, shndx=(1 if n else 0)) for i, n in enumerate(order))
-    blobs = [('strtab', strtab), ('symtab', symtab), ('hash', table)]
+    blobs = [('strtab', strtab), ('symtab', symtab), ('hash', table)] + ([('gnuhash', gnu_extra)] if gnu_extra else [])
     tags = [('DT_NEEDED', stroff['libc.so.6'])]
     if rng.random() < 0.5:
         tags.append(('DT_NEEDED', stroff['libm.so']))
@@ -46,6 +55,8 @@ def one_case(rng):
         tags.append(('DT_SONAME', stroff['me.so']))
     if rng.random() < 0.5:
         tags.append((rng.choice(['DT_RPATH', 'DT_RUNPATH']), stroff['/opt/lib']))
+    if gnu_extra:
+        tags.append(('DT_GNU_HASH', ('ptr', 'gnuhash')))
     tags += [('DT_GNU_HASH' if use_gnu else 'DT_HASH', ('ptr', 'hash')), ('DT_STRTAB', ('ptr', 'strtab')), ('DT_STRSZ', len(strtab)),
              ('DT_SYMTAB', ('ptr', 'symtab')), ('DT_SYMENT', 24 if cls == 64 else 16)]
     want_tables = {}
